@@ -1,5 +1,7 @@
 mod cmd_lin;
 mod cmd_wtstages;
+mod cmd_sizes;
+mod gen_families;
 mod cmd_backend;
 mod cmd_det;
 mod cmd_native;
@@ -122,6 +124,7 @@ fn main() {
         "fun2core" => cmd_fun2core::cmd_fun2core(num(2, 1), num(3, 0) as usize, args.get(5..).unwrap_or(&[]), &mut *out),
         "subst" => cmd_subst::cmd_subst(num(2, 1), num(3, 0) as usize, &mut *out, args.get(5..).unwrap_or(&[])),
         "rt" => cmd_rt::cmd_rt(num(2, 1), num(3, 100) as usize, &mut *out),
+        "sizes" => cmd_sizes::cmd_sizes(num(2, 1), num(3, 0) as usize, &mut *out, args.get(5..).unwrap_or(&[])),
         "fmt" => cmd_fmt::cmd_fmt(num(2, 1), num(3, 0) as usize, args.get(5..).unwrap_or(&[]), &mut *out),
         c => { eprintln!("unknown command {c}"); std::process::exit(2); }
     }
